@@ -313,10 +313,11 @@ def r_misc(ctx, toks):
     return out
 
 DECL_FOLLOW = {';', '=', ',', ')', '(', '{'}
+SCALARS = ('double', 'ndsize_t', 'size_t', 'bool', 'int', 'int32_t', 'uint32_t', 'int64_t', 'uint64_t', 'unsigned', 'float')
 
 def scan_decls(ctx, toks):
     """record identifier -> ctype for every 'TYPE [&|*] name' with a known struct/scalar type"""
-    known = STRUCT_TYPES | {'double', 'ndsize_t', 'size_t', 'bool', 'int', 'double_iter'} | set(ctx.enums) | set(ctx.unit.get('extra_types', []))
+    known = STRUCT_TYPES | set(SCALARS) | {'double_iter'} | set(ctx.enums) | set(ctx.unit.get('extra_types', []))
     i = 0
     while i < len(toks) - 1:
         t = toks[i]
@@ -495,7 +496,7 @@ def r_refs(ctx, toks):
                 prev = out[-1].t if out else ''
                 if i + 1 < n and toks[i + 1].t == '=' and prev in (';', '{', '}', ')', 'else') and ctx.env[t.t][1] is True:
                     out.extend([P('(', t.ws), P('*', ''), Tok('id', t.t, ''), P(')', '')]); i += 1; fire(ctx, 'ref-assign'); continue
-            elif ty in ('double', 'ndsize_t', 'size_t', 'bool', 'int') and ctx.env[t.t][1] == 'param':
+            elif ty in SCALARS and ctx.env[t.t][1] == 'param':
                 out.extend([P('(', t.ws), P('*', ''), Tok('id', t.t, ''), P(')', '')]); i += 1; fire(ctx, 'ref-scalar-deref'); continue
         out.append(t); i += 1
     return out
